@@ -1,4 +1,5 @@
 import Secp.Proofs.Bip32
+import Secp.Proofs.Slices
 /-
   Props/C13 — extended-key serialisation round-trips, rejects malformed input, owns its data.
   Model: `Secp.Model.unmarshal`, `ExtKey.marshal`.  In the model a decoded key is a value by
@@ -42,5 +43,14 @@ theorem marshal_len_priv (k : ExtKey) (hv : versionIsPrivate k.version = true) (
     (hf : k.fingerprint.length = 4) (hcc : k.chainCode.length = 32) (hkl : k.keyData.length ≤ 32) :
     k.marshal.length = 82 :=
   Secp.Proofs.Bip32.marshal_len_priv k hv hvl hf hcc hkl
+
+
+/-- Limb level of this property's own functions: the REGENERATED sliced field programs (tools/gotr pass T2s,
+    `Secp.Gen.Slices`) of `UnmarshalBinary`'s public-key validation and the conversions pass the abstract interpreter on every path — no magnitude overflow, every
+    comparison / parity test / serialisation reads a normalised value, every callee's precondition holds,
+    every returned key or point is normalised.  Together with C05 (kernels) and C16 (`absPath_sound`,
+    `contracts_justified`) this is what makes the value-level model above faithful to the limb code. -/
+theorem extkey_field_arithmetic_exact :
+    Secp.Proofs.Slices.entriesOK ["github.com/ModChain/secp256k1/ecckd.ExtendedKey.UnmarshalBinary", "github.com/ModChain/secp256k1/ecckd.ExtendedKey.ToPublicSecp256k1", "github.com/ModChain/secp256k1/ecckd.ExtendedKey.ToPublicECDSA"] = true := by decide +kernel
 
 end Secp.Props.C13
